@@ -303,6 +303,64 @@ theorem size_le_max (fuel : Nat) (o : Obs ℝ) (out : LinOut ℝ) (h : ¬ hdist 
     simp only [targets, List.length_map] at this
     rw [this]; exact le_trans (List.length_filter_le _ _) (by decide)
 
+/-! ## a new pass of `LocalNetwork::project_equations` (index reset) -/
+
+/-- the reset guard as coded (`network.cpp`, regenerated) covers every adjusted coordinate group:
+    a point that is free or constrained in xy or in z gets its cached indexes zeroed -/
+theorem reset_guard_covers_adjusted {K : Type} (p : Pt K) :
+    (p.free_xy = true → Gen.Lin.resetGuard p = true) ∧ (p.free_z = true → Gen.Lin.resetGuard p = true) :=
+  Lin.resetGuard_of_free p
+
+/-- after the prologue: counter 0, every orientation and every unknown of a guarded point has
+    index 0 (points failing the guard keep stale indexes — they must never be touched) -/
+theorem reset_clean (guard : Nat → Bool) (s : IdxState) :
+    (s.resetPass guard).maxn = 0 ∧
+    (∀ u : Unk, u.c = .ori → (s.resetPass guard).get u = 0) ∧
+    (∀ u : Unk, guard u.id = true → (s.resetPass guard).get u = 0) := IdxState.resetPass_clean guard s
+
+/-- history independence: whatever earlier passes left in the points, a pass whose observations
+    mention only orientations and unknowns of guarded points (by `reset_guard_covers_adjusted`:
+    all adjusted coordinates) produces the rows and the number of unknowns of a pass on a
+    brand-new state, for which `index_fresh`, `index_in_range` hold -/
+theorem pass_fresh {K : Type} (name : Role → Coord → Unk) (guard : Nat → Bool) (s : IdxState) (evs : List (Ev K))
+    (hC : ∀ e ∈ evs, (evTarget name e).c = .ori ∨ guard (evTarget name e).id = true) :
+    (runEvs name evs (s.resetPass guard)).2 = (runEvs name evs IdxState.init).2 ∧
+    (runEvs name evs (s.resetPass guard)).1.maxn = (runEvs name evs IdxState.init).1.maxn :=
+  Lin.pass_fresh name guard s evs hC
+
+/-! ## roles naming one and the same point (repeated column indices are summed) -/
+
+/-- angle with both targets adjusted: the sum of the coefficients pushed for backsight and
+    foresight is the derivative of the angle when both targets move together -/
+theorem angle_joint (fuel : Nat) (o : Obs ℝ) (out : LinOut ℝ) (h : ¬ hdist o < CUT) (h' : ¬ hdist2 o < CUT)
+    (ht : o.pto.free_xy = true) (hs : o.pfs.free_xy = true)
+    (hok : Gen.Lin.angle fuel o = .ok out) (c : Coord) :
+    IsPartialAngleSet o [.pto, .pfs] c (coeffSum out.pushes [.pto, .pfs] c) :=
+  Lin.angle_joint fuel o out h h' ht hs hok c
+
+/-- angle with bs = fs: the column of the common target receives coefficients that cancel — the
+    derivative of the constant angle -/
+theorem angle_bs_eq_fs (fuel : Nat) (o : Obs ℝ) (out : LinOut ℝ) (hal : o.pto = o.pfs)
+    (h : ¬ hdist o < CUT) (hok : Gen.Lin.angle fuel o = .ok out) (c : Coord) :
+    coeffSum out.pushes [.pto, .pfs] c = 0 := Lin.angle_bs_eq_fs_sum_zero fuel o out hal h hok c
+
+/-- an observed difference from a point to itself: −1 and +1 meet in one column; 0 is the
+    derivative of the (constant) difference when the point moves -/
+theorem diffs_from_eq_to (fuel : Nat) (o : Obs ℝ) (c : Coord) :
+    (∃ out, Gen.Lin.h_diff fuel o = .ok out ∧ (o.pfrom.free_z = o.pto.free_z → coeffSum out.pushes [.pfrom, .pto] c = 0)) ∧
+    (∃ out, Gen.Lin.zdiff fuel o = .ok out ∧ (o.pfrom.free_z = o.pto.free_z → coeffSum out.pushes [.pfrom, .pto] c = 0)) ∧
+    (∃ out, Gen.Lin.xdiff fuel o = .ok out ∧ (o.pfrom.free_xy = o.pto.free_xy → coeffSum out.pushes [.pfrom, .pto] c = 0)) ∧
+    (∃ out, Gen.Lin.ydiff fuel o = .ok out ∧ (o.pfrom.free_xy = o.pto.free_xy → coeffSum out.pushes [.pfrom, .pto] c = 0)) ∧
+    IsPartialSet MM dZ o [.pfrom, .pto] c 0 ∧ IsPartialSet MM dX o [.pfrom, .pto] c 0 ∧
+    IsPartialSet MM dY o [.pfrom, .pto] c 0 := by
+  refine ⟨⟨_, Lin.h_diff_eq fuel o, ?_⟩, ⟨_, Lin.zdiff_eq fuel o, ?_⟩, ⟨_, Lin.xdiff_eq fuel o, ?_⟩,
+    ⟨_, Lin.ydiff_eq fuel o, ?_⟩, Lin.const_partialSet dZ o _ c (Lin.dZ_bumpFT o c),
+    Lin.const_partialSet dX o _ c (Lin.dX_bumpFT o c), Lin.const_partialSet dY o _ c (Lin.dY_bumpFT o c)⟩
+  · intro he; cases hf : o.pfrom.free_z <;> rw [hf] at he <;> cases c <;> simp [LinOut.pushes, pushes, coeffSum, hf, ← he]
+  · intro he; cases hf : o.pfrom.free_z <;> rw [hf] at he <;> cases c <;> simp [LinOut.pushes, pushes, coeffSum, hf, ← he]
+  · intro he; cases hf : o.pfrom.free_xy <;> rw [hf] at he <;> cases c <;> simp [LinOut.pushes, pushes, coeffSum, hf, ← he]
+  · intro he; cases hf : o.pfrom.free_xy <;> rw [hf] at he <;> cases c <;> simp [LinOut.pushes, pushes, coeffSum, hf, ← he]
+
 /-! ## non-vacuity -/
 
 /-- a concrete sight (3-4-5 triangle, both points free) meets the hypotheses of the
@@ -337,5 +395,19 @@ example : π < Lin.face2Witness.value ∧ ∃ out, Gen.Lin.z_angle 0 Lin.face2Wi
 /-- an index state after two allocations satisfies the invariant and is non-trivial -/
 example : ((IdxState.init.touch ⟨0, .x⟩).touch ⟨0, .y⟩).WF ∧ ((IdxState.init.touch ⟨0, .x⟩).touch ⟨0, .y⟩).maxn = 2 :=
   ⟨IdxState.touch_wf (IdxState.touch_wf IdxState.wf_init _) _, by decide⟩
+
+/-- an angle with bs = fs over a 5 m sight meets the hypotheses of `angle_bs_eq_fs` and returns -/
+example : ∃ o : Obs ℝ, o.pto = o.pfs ∧ ¬ hdist o < CUT ∧ ∃ fuel out, Gen.Lin.angle fuel o = .ok out := by
+  let o : Obs ℝ := { Lin.face2Witness with pfs := Lin.face2Witness.pto, value := 0 }
+  have hd : hdist o = 5 := Lin.face2Witness_hdist
+  have hc : ¬ hdist o < CUT := by rw [hd]; unfold CUT; norm_num
+  have hc2 : ¬ hdist2 o < CUT := by
+    have : hdist2 o = hdist o := by simp [hdist, hdist2, dX, dY, dX2, dY2, o]
+    rw [this]; exact hc
+  exact ⟨o, rfl, hc, Lin.angle_terminates o hc hc2⟩
+
+/-- a state with a stale height index: the prologue with the coded guard clears it -/
+example : ((IdxState.init.touch ⟨7, .z⟩).resetPass (fun _ => true)).get ⟨7, .z⟩ = 0 ∧
+    (IdxState.init.touch ⟨7, .z⟩).get ⟨7, .z⟩ = 1 := by decide
 
 end Gama.Props.C05
